@@ -60,6 +60,10 @@ C['C10'] = dict(level=MC, engine='E3+E2', design='§2 C10',
    technique='CrossHair symbolic execution (symbolic horizon, list length, float values, initial value) of loop-light blocks; symx symbolic execution of the unmodified SolveEquation with symbolic exogenous values for iterated/unreduced blocks',
    text='CrossHair harnesses run the real ParseString/SetInitialConditions/SolveEquation with symbolic horizon (0..2/3), exogenous list (length<=4, float values), scalar, tuple, initial-condition value on endogenous/lagged/decorative variables, MaxTime line vs solver attribute, user time axis, and unevaluable values; E2 runs five block shapes (incl. constants, affine iteration, decorative, user time) with reduction on and off, exogenous values symbolic, sizes enumerated, and z3 shows on every path: lengths T+1, exogenous series verbatim, k=0 value, lag relation, time axis; too-short lists rejected.',
    note='Model-level wrappers pass values through repr()/str(float()) text (realisation): covered by a concrete enumeration, reported separately in evidence. Steady-state initialisation is C15.')
+C['C02'] = dict(level=MC, engine='E2', design='§2 C02',
+   technique='symbolic execution (symx DFS driver, z3) of the unmodified EquationSolver._SolveStep/SolveStep: exact-real residual post-conditions on every path; IEEE binary64 (QF_FP) blind-fork paths for the non-finite clause',
+   text='Real mode: nine block shapes (affine 1-3 variables, oscillating, lagged, decorative tree, alias chain, user function) x tolerances x iteration caps x reduction on/off are executed through the real solver with start values and exogenous inputs symbolic in [-100,100]; every feasible path is explored and z3 shows on each normally-returning path that simultaneously determined equations hold within (1+gain)*n*tol/(1-tol)*max(1,max|x|) and decorative/alias/lagged/exogenous/time equations hold exactly. FP mode: the same code on z3 binary64 values, every path, one QF_FP query per returning path: no reported value is NaN or inf for any finite doubles.',
+   note='Trusted: SymReal/SymFP duck classes and the driver (max() shadowed by an ite in FP mode only). Residual bound derived from the exit test using the gain read off the real parser partition. n>3 and non-affine simultaneous residuals outside.')
 PENDING = {}
 ALL = ['C%02d' % i for i in range(1, 21)]
 checks = []
